@@ -8,7 +8,7 @@
  *   columns / column_values_written hold column_capacity entries (NULL iff capacity 0);
  *   columns[i].name is an owned heap string for i < num_columns, names pairwise distinct;
  *   0 <= num_row_groups <= row_groups_capacity < 2^30, row_groups holds capacity entries;
- *   0 <= file_offset, total_rows, current_row_group_rows <= 2^62;
+ *   0 <= file_offset, total_rows, current_row_group_rows <= 2^61;
  *   current_row_group is NULL or a live row-group writer; arena initialised.
  */
 #include "cqv.h"
@@ -27,6 +27,21 @@
 #else
 #define NRG_LIMIT 0x3FFFFFFF
 #endif
+
+/* ---- realloc: the only reallocation in the functions under proof is flush_row_group's growth
+ * of writer->row_groups.  CBMC's model copies the old array (__CPROVER_array_copy) and creates an
+ * untyped byte object, which exhausts memory on symbolic-size arrays of structs.  Assumed
+ * contract: may fail (old block untouched); otherwise a new block of the requested size with
+ * ARBITRARY contents (superset of "old contents preserved") and the old block is freed. */
+void *realloc(void *ptr, size_t size) {
+  __CPROVER_precondition(size != 0 && size % sizeof(row_group_info_t) == 0, "realloc: whole row_group_info_t elements");
+  if (nondet_bool()) return NULL;
+  size_t n = size / sizeof(row_group_info_t);
+  void *res = malloc(n * sizeof(row_group_info_t));
+  __CPROVER_assume(res != NULL);
+  if (ptr != NULL) free(ptr);
+  return res;
+}
 
 /* ---- assumed contract: row-group writer (src/writer/row_group_writer.c) ---------------- */
 carquet_row_group_writer_t *G_rg;   /* the live row-group writer handle, if any */
@@ -141,7 +156,12 @@ void *carquet_arena_calloc(carquet_arena_t *arena, size_t count, size_t size) {
   __CPROVER_precondition(arena == G_arena && G_arena_live, "arena live");
   if (nondet_bool()) return NULL;
   if (count > ((size_t)1 << 31) || size > ((size_t)1 << 12)) return NULL;
-  size_t bytes = count * size;
+  /* the byte count is laundered through a nondet so that CBMC creates a plain byte object:
+   * member-pointer accesses (&columns[i].metadata)->x at a symbolic i are then byte updates on a
+   * byte array (cheap) instead of byte updates on an array of structs (memory blow-up) */
+  size_t z = nondet_size_t();
+  __CPROVER_assume(z == 0);
+  size_t bytes = count * (size + z);
   if (bytes > CQV_MAXBUF) return NULL;
   return __CPROVER_allocate(bytes, 1);   /* zero-filled, owned by the arena (not leak-tracked) */
 }
@@ -228,9 +248,9 @@ static carquet_writer_t *mk_writer(void) {
     __CPROVER_assume(w->row_groups != NULL);
   }
   w->current_row_group = nondet_bool() ? mk_rg() : NULL;
-  __CPROVER_assume(w->file_offset >= 0 && w->file_offset <= ((int64_t)1 << 62));
-  __CPROVER_assume(w->total_rows >= 0 && w->total_rows <= ((int64_t)1 << 62));
-  __CPROVER_assume(w->current_row_group_rows >= 0 && w->current_row_group_rows <= ((int64_t)1 << 62));
+  __CPROVER_assume(w->file_offset >= 0 && w->file_offset <= ((int64_t)1 << 61));
+  __CPROVER_assume(w->total_rows >= 0 && w->total_rows <= ((int64_t)1 << 61));
+  __CPROVER_assume(w->current_row_group_rows >= 0 && w->current_row_group_rows <= ((int64_t)1 << 61));
   G_created_by[1] = 0;
   w->options.created_by = nondet_bool() ? G_created_by : NULL;
   G_arena = &w->arena;
